@@ -325,3 +325,221 @@ B('pB_x_mm_one_expr_bad', ['C06'], 'R06.d', (R, _MM, "        return not method 
 B('pB_x_mm_one_expr_bad2', ['C06'], 'R06.d', (R, _MM, "        return not (method and self.methods) or method in self.methods\n"))
 T('pB_x_hs_nested', ['C06'], (R, _HS, "        if not _dispatch_state.exceptions:\n            if _dispatch_state.allowed_methods:\n                return err_handler.method_not_allowed_type(allowed_methods=_dispatch_state.allowed_methods)\n            return err_handler.not_found_type(dispatch_state=_dispatch_state, request=request, application=_application)\n        return _dispatch_state.exceptions[-1]\n"))
 T('pB_x_rm_cond_expr', ['C06'], (R, "        self.methods = methods and set([m.upper() for m in methods])\n", "        self.methods = set(m.upper() for m in methods) if methods else methods\n"))
+
+# ---------------------------------------------------------------------------------------------- second pass: recording order (R06.c)
+# exceptions[-1] is the most recent error only if add_exception is an unconditional append and nobody else writes the list
+_AE = "    def add_exception(self, exception):\n        self.exceptions.append(exception)\n"
+_AE_HEAD = "    def add_exception(self, exception):\n"
+T('pB2_twin_record_extend_display', ['C06'], (A, _AE, _AE_HEAD + "        self.exceptions.extend([exception])\n"))
+T('pB2_twin_record_augmented', ['C06'], (A, _AE, _AE_HEAD + "        self.exceptions += [exception]\n"))
+T('pB2_twin_record_through_alias', ['C06'], (A, _AE, _AE_HEAD + "        recorded = self.exceptions\n        recorded.append(exception)\n"))
+T('pB2_twin_record_insert_at_len', ['C06'], (A, _AE, _AE_HEAD + "        self.exceptions.insert(len(self.exceptions), exception)\n"))
+T('pB2_twin_record_both_branches', ['C06'],
+  (A, _AE, _AE_HEAD + "        if getattr(exception, 'is_breaking', True):\n            self.exceptions.append(exception)\n"
+                      "        else:\n            self.exceptions.append(exception)\n"))
+B('pB2_record_skips_known_instances', ['C06'], 'R06.c',
+  (A, _AE, _AE_HEAD + "        if exception not in self.exceptions:\n            self.exceptions.append(exception)\n"))
+B('pB2_record_guard_clause_same_code', ['C06'], 'R06.c',
+  (A, _AE, _AE_HEAD + "        if any(e.code == exception.code for e in self.exceptions):\n            return\n        self.exceptions.append(exception)\n"))
+B('pB2_record_at_front', ['C06'], 'R06.c', (A, _AE, _AE_HEAD + "        self.exceptions.insert(0, exception)\n"))
+B('pB2_record_keeps_only_first', ['C06'], 'R06.c',
+  (A, _AE, _AE_HEAD + "        self.exceptions.append(exception)\n        del self.exceptions[1:]\n"))
+B('pB2_record_then_sorted_by_code', ['C06'], 'R06.c',
+  (A, _AE, _AE_HEAD + "        self.exceptions.append(exception)\n        self.exceptions.sort(key=lambda e: e.code or 0)\n"))
+B('pB2_record_alias_reordered', ['C06'], 'R06.c',
+  (A, _AE, _AE_HEAD + "        recorded = self.exceptions\n        recorded.append(exception)\n        recorded.reverse()\n"))
+B('pB2_record_rebound_argument', ['C06'], 'R06.c',
+  (A, _AE, _AE_HEAD + "        exception = self.exceptions[0] if self.exceptions else exception\n        self.exceptions.append(exception)\n"))
+B('pB2_sentinel_consumes_recorded_errors', ['C06'], 'R06.c',
+  (R, "        if _dispatch_state.exceptions:\n            return _dispatch_state.exceptions[-1]\n",
+      "        if _dispatch_state.exceptions:\n            _dispatch_state.exceptions.sort(key=lambda e: e.code or 0)\n            return _dispatch_state.exceptions[-1]\n"))
+B('pB2_dispatch_rewrites_recorded_errors', ['C06'], 'R06.c',
+  (A, "            else:\n                dispatch_state.add_exception(ret)\n",
+      "            else:\n                dispatch_state.add_exception(ret)\n                dispatch_state.exceptions.reverse()\n"))
+
+# ---------------------------------------------------------------------------------------------- second pass: the canonicity test (R07.a)
+# the test "is this path canonical" compares normalize_path(request path) with the request path in the same representation
+_IND4 = lambda text: ''.join('    ' + l for l in text.splitlines(True))
+
+
+def _slash2(bind='normalize_path(url_path, route.is_branch)', test='norm_path != url_path', piece='url_quote(norm_path)',
+            template="'{root}{path}?{query}'"):
+    """the nested slash handling with the Location built by a keyword .format"""
+    return ("            if route.is_branch:\n"
+            "                norm_path = " + bind + "\n"
+            "                if " + test + ":\n"
+            "                    if route.slash_mode == S_REDIRECT:\n" + _IND4(_QUERY) +
+            "                        return redirect(" + template + ".format(root=request.url_root.rstrip('/'), path=" + piece + ", query=query))\n"
+            "                    elif route.slash_mode == S_STRICT:\n" + _IND4(_STRICT))
+
+
+_DISPATCH_DEF = "    def dispatch(self, request):\n        ret = None\n"
+_HELPER = ("    def _slash_redirect(self, request, quoted_path):\n"
+           "        query = request.query_string\n"
+           "        try:\n"
+           "            query = query.decode('utf8')\n"
+           "        except UnicodeDecodeError:\n"
+           "            query = url_quote(query, safe=_QUERY_SAFE)\n"
+           "        location = '{root}{path}?{query}'.format(root=request.url_root.rstrip('/'), path=quoted_path, query=query)\n"
+           "        return redirect(location)\n\n")
+
+
+def _slash_helper(bind, arg):
+    return ("            if route.is_branch:\n"
+            "                norm_path = " + bind + "\n"
+            "                is_canonical = (norm_path == url_path)\n"
+            "                if not is_canonical and route.slash_mode == S_REDIRECT:\n"
+            "                    return self._slash_redirect(request, " + arg + ")\n"
+            "                if not is_canonical and route.slash_mode == S_STRICT:\n" + _STRICT)
+
+
+T('pB2_twin_location_keyword_format', ['C06', 'C07', 'C08'], (A, _SLASH, _slash2()))
+T('pB2_twin_location_template_constant', ['C07'], (A, _SLASH, _slash2(template='_LOCATION_TEMPLATE')),
+  (A, "def default_render_error(request, _error, **kwargs):\n", "_LOCATION_TEMPLATE = '{root}{path}?{query}'\n\n\ndef default_render_error(request, _error, **kwargs):\n"))
+T('pB2_twin_redirect_helper_quoted_at_call', ['C06', 'C07', 'C08'],
+  (A, _DISPATCH_DEF, _HELPER + _DISPATCH_DEF), (A, _SLASH, _slash_helper('normalize_path(url_path, is_branch=True)', 'url_quote(norm_path)')))
+T('pB2_twin_both_operands_quoted', ['C07'],
+  (A, _SLASH, _slash2(bind='url_quote(normalize_path(url_path, route.is_branch))', test='norm_path != url_quote(url_path)', piece='norm_path')))
+B('pB2_quote_hoisted_before_canonical_test', ['C07'], 'R07.a',
+  (A, _DISPATCH_DEF, _HELPER + _DISPATCH_DEF), (A, _SLASH, _slash_helper('url_quote(normalize_path(url_path, is_branch=True))', 'norm_path')))
+B('pB2_canonical_quoted_at_the_test', ['C07'], 'R07.a', (A, _SLASH, _slash2(test='url_quote(norm_path) != url_path')))
+B('pB2_only_request_path_quoted', ['C07'], 'R07.a', (A, _SLASH, _slash2(test='norm_path != url_quote(url_path)')))
+B('pB2_request_path_stripped_at_the_test', ['C07'], 'R07.a', (A, _SLASH, _slash2(test="norm_path != url_path.rstrip('/')")))
+B('pB2_canonical_path_lowercased', ['C07'], 'R07.a', (A, _SLASH, _slash2(bind='normalize_path(url_path, route.is_branch).lower()')))
+B('pB2_quoted_with_different_safe_sets', ['C07'], 'R07.a',
+  (A, _SLASH, _slash2(bind="url_quote(normalize_path(url_path, route.is_branch), safe='/')", test='norm_path != url_quote(url_path)', piece='norm_path')))
+B('pB2_keyword_format_path_unquoted', ['C07'], 'R07.b', (A, _SLASH, _slash2(piece='norm_path')))
+B('pB2_keyword_format_query_before_path', ['C07'], 'R07.b', (A, _SLASH, _slash2(template="'{root}{query}?{path}'")))
+
+# ---------------------------------------------------------------------------------------------- second pass: total JSON encoding (R08.e)
+# the fallback renderer shares the to_* serialisers with the primary one: the JSON encoder they use must not raise on unknown values
+_TJ = ("        encoder = ClasticJSONEncoder(dev_mode=True, indent=indent,\n"
+       "                                     sort_keys=sort_keys, ensure_ascii=False,\n"
+       "                                     skipkeys=skipkeys)\n"
+       "        return encoder.encode(self.to_dict())\n")
+_MIME = "DEFAULT_MIME = 'text/plain'\n"
+_IMPORTS = "import sys\nimport datetime\n"
+_SHARED = ("        if (indent, sort_keys, skipkeys) == (2, True, True):\n"
+           "            encoder = _JSON_ENCODER\n"
+           "        else:\n"
+           "            encoder = ClasticJSONEncoder(dev_mode=True, indent=indent, sort_keys=sort_keys, ensure_ascii=False, skipkeys=skipkeys)\n"
+           "        return encoder.encode(self.to_dict())\n")
+_DFLT_HOOK = ("        if self.dev_mode:\n"
+              "            return repr(obj)\n"
+              "        raise TypeError('cannot serialize to JSON: %r' % obj)\n")
+T('pB2_twin_json_shared_encoder', ['C08'], (E, _TJ, _SHARED),
+  (E, _MIME, _MIME + "_JSON_ENCODER = ClasticJSONEncoder(dev_mode=True, indent=2, sort_keys=True, ensure_ascii=False, skipkeys=True)\n"))
+T('pB2_twin_json_shared_encoder_options_mapping', ['C08'], (E, _TJ, _SHARED),
+  (E, _MIME, _MIME + "_JSON_OPTIONS = {'dev_mode': True, 'indent': 2, 'sort_keys': True, 'skipkeys': True}\n"
+                     "_JSON_ENCODER = ClasticJSONEncoder(ensure_ascii=False, **_JSON_OPTIONS)\n"))
+T('pB2_twin_json_local_options_mapping', ['C08'],
+  (E, _TJ, "        opts = dict(dev_mode=True, indent=indent, sort_keys=sort_keys, skipkeys=skipkeys)\n        opts['ensure_ascii'] = False\n"
+           "        encoder = ClasticJSONEncoder(**opts)\n        return encoder.encode(self.to_dict())\n"))
+T('pB2_twin_json_inline_construction', ['C08'],
+  (E, _TJ, "        return ClasticJSONEncoder(dev_mode=True, indent=indent, sort_keys=sort_keys, ensure_ascii=False,\n"
+           "                                  skipkeys=skipkeys).encode(self.to_dict())\n"))
+T('pB2_twin_json_encoder_class_attribute', ['C08'],
+  (E, "    def to_json(self, indent=2, sort_keys=True, skipkeys=True):\n" + _TJ,
+      "    _json_encoder = ClasticJSONEncoder(dev_mode=True, indent=2, sort_keys=True, ensure_ascii=False, skipkeys=True)\n\n"
+      "    def to_json(self):\n        return self._json_encoder.encode(self.to_dict())\n"))
+T('pB2_twin_json_stock_encoder_repr_hook', ['C08'], (E, _IMPORTS, _IMPORTS + "import json\n"),
+  (E, _TJ, "        return json.dumps(self.to_dict(), default=repr, indent=indent, sort_keys=sort_keys, ensure_ascii=False, skipkeys=skipkeys)\n"))
+T('pB2_twin_encoder_hook_guard_inverted', ['C08'],
+  (RS, _DFLT_HOOK, "        if not self.dev_mode:\n            raise TypeError('cannot serialize to JSON: %r' % obj)\n        return repr(obj)\n"))
+T('pB2_twin_encoder_flag_is_a_parameter', ['C08'],
+  (RS, "    def __init__(self, **kw):\n        self.dev_mode = kw.pop('dev_mode', False)\n",
+       "    def __init__(self, dev_mode=False, **kw):\n        self.dev_mode = dev_mode\n"))
+B('pB2_json_shared_encoder_without_text_fallback', ['C08'], 'R08.e', (E, _TJ, _SHARED),
+  (E, _MIME, _MIME + "_JSON_DEFAULTS = {'indent': 2, 'sort_keys': True, 'skipkeys': True}\n"
+                     "_JSON_ENCODER = ClasticJSONEncoder(ensure_ascii=False, **_JSON_DEFAULTS)\n"))
+B('pB2_json_text_fallback_switched_off', ['C08'], 'R08.e', (E, _TJ, _TJ.replace('dev_mode=True', 'dev_mode=False')))
+B('pB2_json_local_options_without_flag', ['C08'], 'R08.e',
+  (E, _TJ, "        opts = dict(indent=indent, sort_keys=sort_keys, skipkeys=skipkeys)\n        opts['ensure_ascii'] = False\n"
+           "        encoder = ClasticJSONEncoder(**opts)\n        return encoder.encode(self.to_dict())\n"))
+B('pB2_json_stock_encoder', ['C08'], 'R08.e', (E, _IMPORTS, _IMPORTS + "import json\n"),
+  (E, _TJ, "        encoder = json.JSONEncoder(indent=indent, sort_keys=sort_keys, ensure_ascii=False, skipkeys=skipkeys)\n"
+           "        return encoder.encode(self.to_dict())\n"))
+B('pB2_json_dumps_without_hook', ['C08'], 'R08.e', (E, _IMPORTS, _IMPORTS + "import json\n"),
+  (E, _TJ, "        return json.dumps(self.to_dict(), indent=indent, sort_keys=sort_keys, ensure_ascii=False, skipkeys=skipkeys)\n"))
+B('pB2_json_dumps_clastic_encoder_without_flag', ['C08'], 'R08.e', (E, _IMPORTS, _IMPORTS + "import json\n"),
+  (E, _TJ, "        return json.dumps(self.to_dict(), cls=ClasticJSONEncoder, indent=indent, sort_keys=sort_keys, ensure_ascii=False)\n"))
+B('pB2_json_encoder_class_attribute_without_flag', ['C08'], 'R08.e',
+  (E, "    def to_json(self, indent=2, sort_keys=True, skipkeys=True):\n" + _TJ,
+      "    _json_encoder = ClasticJSONEncoder(indent=2, sort_keys=True, ensure_ascii=False, skipkeys=True)\n\n"
+      "    def to_json(self):\n        return self._json_encoder.encode(self.to_dict())\n"))
+B('pB2_encoder_text_fallback_only_for_some_values', ['C08'], 'R08.e',
+  (RS, _DFLT_HOOK, "        if self.dev_mode and isinstance(obj, Exception):\n            return repr(obj)\n"
+                   "        raise TypeError('cannot serialize to JSON: %r' % obj)\n"))
+B('pB2_encoder_flag_read_under_another_key', ['C08'], 'R08.e',
+  (RS, "        self.dev_mode = kw.pop('dev_mode', False)\n", "        self.dev_mode = kw.pop('debug', False)\n"))
+B('pB2_encoder_hook_delegates_to_stock', ['C08'], 'R08.e',
+  (RS, _DFLT_HOOK, "        if self.dev_mode and not isinstance(obj, type):\n            return repr(obj)\n"
+                   "        return super(ClasticJSONEncoder, self).default(obj)\n"))
+
+# ---------------------------------------------------------------------------------------------- second pass: the slash decision as a tagged outcome
+# (an extracted helper returning ``(outcome, payload)`` pairs, as the loader inlines it: tag and payload are locals set side by side,
+# consumed by ``if outcome == TAG`` further down)
+_TAGS_ANCHOR = "def cast_to_route_factory(in_arg):\n"
+_TAGS = "_SLASHES_OK = 'ok'\n_SLASHES_REDIRECT = 'redirect'\n_SLASHES_NOT_FOUND = 'not_found'\n\n\n" + _TAGS_ANCHOR
+_CONSUME = ("            if slash_outcome == _SLASHES_REDIRECT:\n"
+            "                return slash_result\n"
+            "            if slash_outcome == _SLASHES_NOT_FOUND:\n"
+            "                dispatch_state.add_exception(slash_result)\n"
+            "                continue\n")
+
+
+def _tagged(consume=_CONSUME, redirect_tag='_SLASHES_REDIRECT', strict_tag='_SLASHES_NOT_FOUND', canonical_tag='_SLASHES_OK'):
+    return ("            slash_outcome, slash_result = _SLASHES_OK, None\n"
+            "            if route.is_branch:\n"
+            "                norm_path = normalize_path(url_path, route.is_branch)\n"
+            "                if norm_path != url_path:\n"
+            "                    if route.slash_mode == S_REDIRECT:\n" + _IND4(_QUERY) +
+            "                        slash_outcome = " + redirect_tag + "\n"
+            "                        slash_result = redirect(request.url_root.rstrip('/') + url_quote(norm_path) + '?' + query)\n"
+            "                    elif route.slash_mode == S_STRICT:\n"
+            "                        slash_outcome = " + strict_tag + "\n"
+            "                        slash_result = err_handler.not_found_type(request=request, application=self, source_route=route)\n"
+            "                else:\n"
+            "                    slash_outcome = " + canonical_tag + "\n" + consume)
+
+
+T('pB2_twin_slash_outcome_tags', ['C06', 'C07', 'C08'], (A, _TAGS_ANCHOR, _TAGS), (A, _SLASH, _tagged()))
+B('pB2_tagged_redirect_never_returned', ['C07'], 'R07.a', (A, _TAGS_ANCHOR, _TAGS),
+  (A, _SLASH, _tagged(consume="            if slash_outcome == _SLASHES_NOT_FOUND:\n                dispatch_state.add_exception(slash_result)\n                continue\n")))
+B('pB2_tagged_strict_outcome_ignored', ['C07'], 'R07.a', (A, _TAGS_ANCHOR, _TAGS),
+  (A, _SLASH, _tagged(consume="            if slash_outcome == _SLASHES_REDIRECT:\n                return slash_result\n")))
+B('pB2_tagged_consumers_swapped', ['C07', 'C08'], {'C07': 'R07.a', 'C08': 'R08.a'}, (A, _TAGS_ANCHOR, _TAGS),
+  (A, _SLASH, _tagged(consume=_CONSUME.replace('_SLASHES_REDIRECT', '_X_').replace('_SLASHES_NOT_FOUND', '_SLASHES_REDIRECT').replace('_X_', '_SLASHES_NOT_FOUND'))))
+B('pB2_tagged_strict_marked_ok', ['C07'], 'R07.a', (A, _TAGS_ANCHOR, _TAGS), (A, _SLASH, _tagged(strict_tag='_SLASHES_OK')))
+B('pB2_tagged_redirect_marked_not_found', ['C07'], 'R07.a', (A, _TAGS_ANCHOR, _TAGS), (A, _SLASH, _tagged(redirect_tag='_SLASHES_NOT_FOUND')))
+B('pB2_tagged_tags_collide', ['C07'], 'R07.a',
+  (A, _TAGS_ANCHOR, _TAGS.replace("_SLASHES_NOT_FOUND = 'not_found'", "_SLASHES_NOT_FOUND = 'redirect'")), (A, _SLASH, _tagged()))
+B('pB2_tagged_redirect_returned_late', ['C07'], 'R07.a', (A, _TAGS_ANCHOR, _TAGS),
+  (A, _SLASH, _tagged(consume="            if slash_outcome == _SLASHES_NOT_FOUND:\n                dispatch_state.add_exception(slash_result)\n                continue\n"
+                              "            if slash_outcome == _SLASHES_REDIRECT and route.methods:\n                return slash_result\n")))
+
+# ---------------------------------------------------------------------------------------------- second pass: "the correction, or None"
+# (a helper returning the canonical path when it differs from the request path, else None -- as the loader inlines it)
+def _correction(first="            norm_path = None\n", clear="                if norm_path == url_path:\n                    norm_path = None\n"):
+    return (first +
+            "            if route.is_branch:\n"
+            "                norm_path = normalize_path(url_path, route.is_branch)\n" + clear +
+            "            if norm_path is None:\n"
+            "                pass\n"
+            "            elif route.slash_mode == S_REDIRECT:\n" + _QUERY.replace('                    ', '                ') +
+            "                return redirect(''.join([request.url_root.rstrip('/'), url_quote(norm_path), '?', query]))\n"
+            "            elif route.slash_mode == S_STRICT:\n" + _STRICT.replace('                    ', '                '))
+
+
+T('pB2_twin_correction_or_none', ['C06', 'C07', 'C08'], (A, _SLASH, _correction()))
+B('pB2_correction_never_cleared', ['C07'], 'R07.a', (A, _SLASH, _correction(clear='')))
+B('pB2_correction_cleared_when_it_differs', ['C07'], 'R07.a',
+  (A, _SLASH, _correction(clear="                if norm_path != url_path:\n                    norm_path = None\n")))
+B('pB2_correction_defaults_to_request_path', ['C07'], 'R07.a', (A, _SLASH, _correction(first="            norm_path = url_path\n")))
+# the dispatch state under a second name in the sentinel handler
+_HS_ALIAS = ("        state = _dispatch_state\n" + _HS_EXC.replace('_dispatch_state', 'state') + _HS_405.replace('_dispatch_state', 'state') +
+             _HS_404)
+T('pB2_twin_sentinel_state_alias', ['C06'], (R, _HS, _HS_ALIAS))
+B('pB2_sentinel_state_alias_first_error', ['C06'], 'R06.c', (R, _HS, _HS_ALIAS.replace('parked[-1]', 'parked[0]')))
+B('pB2_sentinel_state_alias_405_first', ['C06'], 'R06.c',
+  (R, _HS, "        state = _dispatch_state\n" + _HS_405.replace('_dispatch_state', 'state') + _HS_EXC.replace('_dispatch_state', 'state') + _HS_404))
